@@ -95,6 +95,10 @@ class Algebra:
         self.fn = fn
         self.cfg = cfg  # when given, a local with one later plain assignment dominating the use is inlined too
         self.symmetric = set(symmetric)  # callees whose two arguments commute: argument keys are sorted in the symbol name
+        self.helpers = {}  # callee qualified name -> Function whose (non-constant) return expression is inlined
+        self.bind = {}  # parameter decl id -> sympy expression (while inlining a helper)
+        self.abs_sign = None  # when set (a sympy symbol), abs(e) becomes abs_sign*e
+        self.subscript_symbols = None  # optional callable(node) -> symbol name for array elements
         self.defs = LocalDefs(fn)
         self.names = names
         self.inline = inline
@@ -118,6 +122,12 @@ class Algebra:
             return sympy.nsimplify(v, rational=True) if v is not None else self.sym("?float")
         if k == "CXXBoolLiteralExpr":
             return sympy.Integer(1 if n.get("v") else 0)
+        if k == "DeclRefExpr" and n.get("dk") == "param" and n.get("d") in self.bind:
+            return self.bind[n.get("d")]
+        if self.subscript_symbols is not None and k in ("CXXOperatorCallExpr", "ArraySubscriptExpr") and n.get("op", "[]") == "[]":
+            nm = self.subscript_symbols(n)
+            if nm is not None:
+                return self.sym(nm)
         if k == "DeclRefExpr":
             if n.get("dk") in ("local", "staticlocal") and self.inline:
                 init = self.defs.single_def(n.get("d"))
@@ -162,6 +172,35 @@ class Algebra:
             return {"+": a + b, "-": a - b, "*": a * b, "/": a / b}[n.op]
         if k == "CXXOperatorCallExpr" and n.op == "-" and len(n.c) == 1:
             return -self.expr(n.c[0])
+        if n.is_call() and n.callee in self.helpers and self.depth < 30:
+            h = self.helpers[n.callee]
+            args = n.call_args()
+            if len(args) == len(h.params):
+                vals = [self.expr(a) for a in args]
+                sub = Algebra(h, names=self.names, inline=True, cfg=None, symmetric=self.symmetric)
+                sub.syms = self.syms
+                sub.helpers = self.helpers
+                sub.abs_sign = self.abs_sign
+                sub.depth = self.depth + 1
+                sub.bind = {p["d"]: v for p, v in zip(h.params, vals)}
+                rets = [r for r in h.walk() if r.k == "ReturnStmt" and r.c]
+                cands = []
+                for r in rets:
+                    e = sub.expr(r.c[0])
+                    if e.free_symbols & set().union(*[v.free_symbols for v in vals]) if vals else e.free_symbols:
+                        cands.append(e)
+                if not cands and rets:
+                    cands = [sub.expr(rets[-1].c[0])]
+                if len(cands) >= 1:
+                    return cands[0]
+        if k == "CallExpr" and (n.callee or "").split("::")[-1] in ("abs", "fabs", "fabsf", "labs") and len(n.c) == 1 and self.abs_sign is not None:
+            return self.abs_sign * self.expr(n.c[0])
+        if k == "CallExpr" and (n.callee or "").split("::")[-1] == "square" and len(n.c) == 1:
+            return self.expr(n.c[0]) ** 2
+        if k == "CallExpr" and (n.callee or "").split("::")[-1] in ("cosh", "coshf") and len(n.c) == 1:
+            return sympy.cosh(self.expr(n.c[0]))
+        if k == "CallExpr" and (n.callee or "").split("::")[-1] in ("tanh", "tanhf") and len(n.c) == 1:
+            return sympy.tanh(self.expr(n.c[0]))
         if k == "CallExpr" and n.callee in ("pow", "std::pow", "powf") and len(n.c) == 2:
             return sympy.Pow(self.expr(n.c[0]), self.expr(n.c[1]))
         if k == "CallExpr" and n.callee in ("sqrt", "std::sqrt", "sqrtf") and len(n.c) == 1:
